@@ -28,7 +28,7 @@ func knownPathPrefixes() (exact map[string]bool, freeform map[string]bool) {
 				segs[i] = "*"
 			}
 		}
-		p := strings.Join(segs, ".")
+		p := strings.Join(segs, pathSep)
 		exact[p] = true
 		if kp.Leaf && kp.Type.Kind().String() == "map" {
 			freeform[p] = true
@@ -59,11 +59,11 @@ func docKeyPaths(n *yaml.Node, prefix []string, out *[]string, depth int) {
 				continue
 			}
 			if k.Kind == yaml.ScalarNode && (k.Tag == "!!null" || (k.Value == "" && k.Style == 0)) {
-				*out = append(*out, strings.Join(append(append([]string(nil), prefix...), "<null-key>"), "."))
+				*out = append(*out, strings.Join(append(append([]string(nil), prefix...), "<null-key>"), pathSep))
 				continue
 			}
 			p := append(append([]string(nil), prefix...), k.Value)
-			*out = append(*out, strings.Join(p, "."))
+			*out = append(*out, strings.Join(p, pathSep))
 			docKeyPaths(v, p, out, depth+1)
 		}
 	case yaml.SequenceNode:
@@ -76,14 +76,17 @@ func docKeyPaths(n *yaml.Node, prefix []string, out *[]string, depth int) {
 	}
 }
 
+// pathSep joins key path segments; keys may contain dots, so a control character is used.
+const pathSep = "\x1f"
+
 func normPath(p string) string {
-	segs := strings.Split(p, ".")
+	segs := strings.Split(p, pathSep)
 	for i := range segs {
 		if i > 0 && segs[i-1] == "overrides" {
 			segs[i] = "*"
 		}
 	}
-	return strings.Join(segs, ".")
+	return strings.Join(segs, pathSep)
 }
 
 func FuzzC16StrictYAML(f *testing.F) {
@@ -98,7 +101,7 @@ func FuzzC16StrictYAML(f *testing.F) {
 	f.Add([]byte("base: &b\n  name: n\n<<: *b\narch: a\nversion: 1\n"))
 	f.Add([]byte("name: n\narch: a\nversion: 1\ncontents:\n- dst: /x\n  type: dir\n  file_info: {mode: 0755, owner: o}\n"))
 	f.Fuzz(func(t *testing.T, data []byte) {
-		if len(data) > 1<<16 {
+		if len(data) > 1<<16 || strings.Contains(string(data), pathSep) {
 			return
 		}
 		var doc yaml.Node
@@ -122,7 +125,7 @@ func FuzzC16StrictYAML(f *testing.F) {
 			}
 			ok := false
 			for ff := range freeform {
-				if strings.HasPrefix(np, ff+".") {
+				if strings.HasPrefix(np, ff+pathSep) {
 					ok = true
 				}
 			}
